@@ -307,23 +307,32 @@ class TvMulti:
 
 
 def split_trace(trace_file, nparts, marker='"ev":"Reset"'):
-    """Split an NDJSON trace at behaviour boundaries (Reset lines) into <= nparts files of similar size."""
+    """Split an NDJSON trace at behaviour boundaries (Reset lines) into <= nparts files of similar cost.
+
+    Behaviours are independent, so they may be regrouped: the biggest (in bytes: long behaviours at production constants
+    carry table dumps and probes and are by far the most expensive to validate) are spread first, each to the part that
+    is lightest so far; within a part the recorded order is kept."""
     lines = open(trace_file).read().splitlines(True)
     starts = [i for i, ln in enumerate(lines) if marker in ln]
     if not starts or starts[0] != 0:
         starts = [0] + starts
-    target = max(1, len(lines) // nparts)
-    cuts, last = [0], 0
-    for s in starts[1:]:
-        if s - last >= target and len(cuts) < nparts:
-            cuts.append(s)
-            last = s
-    cuts.append(len(lines))
+    ends = starts[1:] + [len(lines)]
+    behs = [(s, e, sum(len(x) for x in lines[s:e])) for s, e in zip(starts, ends)]
+    nparts = max(1, min(nparts, len(behs)))
+    load = [0] * nparts
+    member = [[] for _ in range(nparts)]
+    for k in sorted(range(len(behs)), key=lambda i: -behs[i][2]):
+        j = load.index(min(load))
+        load[j] += behs[k][2] + 200
+        member[j].append(k)
     files = []
-    for k in range(len(cuts) - 1):
-        p = "%s.part%02d" % (trace_file, k)
+    for j in range(nparts):
+        if not member[j]:
+            continue
+        p = "%s.part%02d" % (trace_file, j)
         with open(p, "w") as f:
-            f.writelines(lines[cuts[k]:cuts[k + 1]])
+            for k in sorted(member[j]):
+                f.writelines(lines[behs[k][0]:behs[k][1]])
         files.append(p)
     return files
 
